@@ -14,9 +14,10 @@
    Full statement inside the model (C09_history): after ANY history from the empty directory the invariant
    holds (every referenced file exists and holds exactly the rows its row group states, no unreferenced file, paths
    distinct, num_rows = total) and a fresh read returns, row group by row group, what the plain model predicts.
-   Not inside the model: the summary's schema = the files' schema (observed by the oracle on every step only).
-   Deviation of today's code from the property text, kept precise: `refused_spec` - a dataset emptied by
-   remove_row_groups refuses new data carrying partition columns (C09_empty_then_append_refuted, open finding).   *)
+   The summary's schema = the files' schema is part of the invariant: a file's content is  schema id :: row ids  and clause (a)
+   says that every referenced file holds  st_sch s :: rows.
+   `refused_spec` lists the refusals of the plain model (no dataset / a dataset exists / other partitioning / overwrite of an
+   unpartitioned dataset); a dataset emptied by remove_row_groups keeps its partitioning (fix 05c32a7).            *)
 From Coq Require Import NArith ZArith Arith List Bool.
 From Pq Require Import Base.Bytes Dataset.FS Dataset.FsPaths Dataset.Edit
   Proofs.EditProofs Proofs.EditRename Proofs.EditHistory.
@@ -36,17 +37,17 @@ Print Assumptions C09_refines.
 (* the only refusals *)
 Theorem C09_refusals : forall s o, inv s -> wf_op o -> step sort_pnames_fixed s o = None ->
   match o with
-  | OWrite _ => st_dir s <> [] \/ st_sum s <> []
-  | OAppend rgs | OWriteRgs rgs _ _ => cats_known s rgs = false
-  | OOverwrite rgs => partitioned rgs = false \/ st_sum s = []
-  | ORemove _ _ => False
+  | OWrite _ _ => st_part s <> None                                     (* a dataset exists already *)
+  | OAppend rgs | OWriteRgs rgs _ _ => cats_known s rgs = false         (* no dataset, or another partitioning than the dataset's *)
+  | OOverwrite rgs => partitioned rgs = false \/ st_part s <> Some true  (* only partitioned datasets *)
+  | ORemove _ _ => st_part s = None                                     (* no dataset *)
   end.
 Proof. exact (step_refused sort_pnames_fixed sort_pnames_fixed_ok). Qed.
 Print Assumptions C09_refusals.
 
 (* the part-file renumbering alone: never fails, keeps the invariant and the content *)
 Theorem C09_sort_part_names : forall s, inv s ->
-  exists s', sort_pnames_fixed s = Some s' /\ inv s' /\ abs s' = abs s.
+  exists s', sort_pnames_fixed s = Some s' /\ inv s' /\ abs s' = abs s /\ st_part s' = st_part s.
 Proof. exact sort_pnames_fixed_ok. Qed.
 Print Assumptions C09_sort_part_names.
 
@@ -58,7 +59,7 @@ Print Assumptions C09_read.
 (* C09_inv (induction over ANY operation list from the empty directory) + the history-level refinement *)
 Theorem C09_history : forall ops, Forall wf_op ops ->
   let s := run sort_pnames_fixed ops empty in
-  inv s /\ check_inv s = true /\ read s = map (fun g => (fst g, Some (snd g))) (spec_run ops []).
+  inv s /\ check_inv s = true /\ read s = map (fun g => (fst g, Some (snd g))) (snd (spec_run ops (None, []))).
 Proof.
   intros ops W s. destruct (history_ok ops W) as [I R]. split; [exact I|]. split; [now apply inv_check | exact R].
 Qed.
@@ -76,7 +77,7 @@ Print Assumptions C09_inv.
 Definition k0 : path := [107; 61; 48]%N.
 Definition k1 : path := [107; 61; 49]%N.
 Definition witness : list op :=
-  [ OWrite [[(k0, [0; 2]); (k1, [1])]; [(k0, [3])]];
+  [ OWrite 7 [[(k0, [0; 2]); (k1, [1])]; [(k0, [3])]];
     OAppend [[(k0, [5]); (k1, [4])]];
     OOverwrite [[(k0, [7]); (k1, [6])]; [(k0, [8]); (k1, [9])]; [(k1, [10])]] ]%N.
 
@@ -96,12 +97,13 @@ Example C09_nonvacuous :
      = map (fun dn => join (fst dn) (part_name (snd dn))) [(k0, 0); (k0, 1); (k1, 2); (k1, 3); (k1, 4)]%N.
 Proof. vm_compute. repeat split. Qed.
 
-(* ---- the open finding: an emptied partitioned dataset refuses the next append --------------------- *)
-Theorem C09_empty_then_append_refuted :
-  exists ops o, forallb wf_opb (ops ++ [o]) = true
-    /\ (let s := run sort_pnames_fixed ops empty in
-        step sort_pnames_fixed s o = None /\ spec_step (abs s) o = Some [(k0, [1])]%N /\ abs s = []).
-Proof.
-  exists [OWrite [[(k0, [0%N])]]; ORemove [0%nat] false], (OAppend [[(k0, [1%N])]]). vm_compute. repeat split.
-Qed.
-Print Assumptions C09_empty_then_append_refuted.
+(* ---- a dataset emptied by remove_row_groups (fix 05c32a7: the partition columns are then taken from the pandas metadata):
+   the next append is accepted and adds its rows; files carry the summary's schema (7), also after the dataset was empty *)
+Example C09_empty_then_append :
+  let ops := [OWrite 7 [[(k0, [0%N])]]; ORemove [0%nat] false; OAppend [[(k0, [1%N]); (k1, [2%N])]]] in
+  forallb wf_opb ops = true
+  /\ (let s := run sort_pnames_fixed [OWrite 7 [[(k0, [0%N])]]; ORemove [0%nat] false] empty in
+      abs s = [] /\ st_dir s = [] /\ st_part s = Some true)
+  /\ read (run sort_pnames_fixed ops empty) = [(k0, Some [1]); (k1, Some [2])]%N
+  /\ map snd (st_dir (run sort_pnames_fixed ops empty)) = [[7; 2]; [7; 1]]%N.
+Proof. vm_compute. repeat split. Qed.
